@@ -481,10 +481,10 @@ func init() {
 	core.Register(&core.Check{
 		ID:    "C13",
 		Level: "exploration",
-		Rule: "partition geometries (start below/straddling/above 4 GiB, byte size below and above 2^32, sizes that are and are not multiples of the physical sector) x GPT/MBR x logical 512/4096 x physical 512/4096 x reader lengths {size, size-1, size+1, 0, 2*size, size-sector, size+sector} x readers delivering odd-sized pieces or data together with io.EOF x payloads that are all non-zero or carry 8 KiB runs of zero bytes (every second case; the device always holds other, non-zero data beforehand); each case runs the real WritePartitionContents/ReadPartitionContents/CopyPartitionRaw on a PRF-filled sparse store with a range guard on the partition; a case is non-trivial when the call ran to a verdict; distinct = distinct (op, geometry class, sizes, chunking)",
+		Rule: "partition geometries (start below/straddling/above 4 GiB, byte size below and above 2^32, sizes that are and are not multiples of the physical sector) x GPT/MBR x logical 512/4096 x physical 512/4096 x reader lengths {size, size-1, size+1, 0, 2*size, size-sector, size+sector} x readers delivering odd-sized pieces or data together with io.EOF x payloads that are all non-zero or carry 8 KiB runs of zero bytes (every second case; the device always holds other, non-zero data beforehand); each case runs the real WritePartitionContents/ReadPartitionContents/CopyPartitionRaw on a PRF-filled sparse store with a range guard on the partition; a case is non-trivial when the call ran to a verdict; distinct = distinct (op, geometry class, sizes, chunking); on GPT the partition under test sits in entry 1, 3, 7 or 128 with the entries below it unused and the second partition in an entry before or behind it, listed in either order in the table value",
 		Assumptions: []string{"the store is a sparse 1 TiB device whose unwritten bytes are a PRF of the offset, so misplaced reads and writes are visible", "CopyPartitionRaw is driven only with a target at least as large as the source"},
 		MinSigs:   map[string]int{"quick": 100, "thorough": 2000},
-		NeedMarks: []string{"start>=4GiB", "straddles-4GiB", "size>=4GiB", "reader == size", "reader < size", "reader > size", "op read", "op copy", "payload with whole sectors of zeroes onto a partition holding other data", "copy of a partition with whole sectors of zeroes onto a partition holding other data"},
+		NeedMarks: []string{"partition under test in a GPT entry other than the first, entries below it unused", "start>=4GiB", "straddles-4GiB", "size>=4GiB", "reader == size", "reader < size", "reader > size", "op read", "op copy", "payload with whole sectors of zeroes onto a partition holding other data", "copy of a partition with whole sectors of zeroes onto a partition holding other data"},
 		CPUSec:    300,
 		Cases:     c13Cases,
 		Run:       c13Run,
